@@ -239,6 +239,15 @@ theorem fire_pres (E : Env) (H : Hooks) (h' : Heap) (o : Id) (n : Name) (old new
     P (fire E H h' o n old new).st.H := by
   simp only [fire]; exact callTrait_pres P hadd hrm E h' o n old new _ H [] hP
 
+theorem refire_pres (E : Env) (r1 : Out) (o : Id) (n : Name) (cmp : Cmp) (old new : Val) (hP : P r1.st.H) :
+    P (refire E r1 o n cmp old new).st.H := by
+  unfold refire
+  split
+  · exact hP
+  · split
+    · exact fire_pres P hadd hrm E _ _ o n old new hP
+    · exact hP
+
 /-- every mutation keeps `P` -/
 theorem mutate_pres (E : Env) (st : St) (m : Mutation) (hP : P st.H) : P (mutate E st m).st.H := by
   cases m with
@@ -262,6 +271,15 @@ theorem mutate_pres (E : Env) (st : St) (m : Mutation) (hP : P st.H) : P (mutate
       · split
         · exact fire_pres P hadd hrm E st.H _ o n _ _ hP
         · exact hP
+    · exact hP
+  | delField o n fresh =>
+    simp only [mutate]
+    split
+    · split
+      · exact hP
+      · split
+        · exact hP
+        · exact refire_pres P hadd hrm E _ o n _ _ _ (fire_pres P hadd hrm E st.H _ o n _ _ hP)
     · exact hP
   | addTrait o n tagged dflt =>
     simp only [mutate]
